@@ -1752,6 +1752,47 @@ SUBS = [
     ),
 ]
 
+# --------------------------------------------------------------------------
+# (c2) mapping between wide alphabets: sizes around the 8 and 16 bit code widths
+# --------------------------------------------------------------------------
+_WIDE_SIZES = [255, 256, 257, 300, 65535, 65536, 65537, 70000]
+
+
+def cases_mapper_wide(tier):
+    for n in _WIDE_SIZES:
+        for mode in ("reversed", "rotated", "extended"):
+            yield {"n": n, "mode": mode}
+
+
+def run_mapper_wide(case):
+    from biotite.sequence import Alphabet, AlphabetMapper
+
+    o = Outcome()
+    n, mode = case["n"], case["mode"]
+    syms = list(range(n))
+    if mode == "reversed":
+        tsyms = syms[::-1]
+    elif mode == "rotated":
+        tsyms = syms[7:] + syms[:7]
+    else:
+        tsyms = [-1, -2, -3] + syms
+    src, tgt = Alphabet(syms), Alphabet(tsyms)
+    mapper = AlphabetMapper(src, tgt)
+    o.label(f"n={n}", mode)
+    o.mark_nontrivial()
+    probe = sorted({c for c in (0, 1, 6, 7, 8, 127, 128, 254, 255, 256, 257, 32767, 32768, 65534, 65535, 65536, 65537, n - 2, n - 1) if 0 <= c < n})
+    cl = "mapper_preserves_symbols"
+    for c in probe:
+        o.check_eq(_plain(tgt.decode(mapper[c])), c, cl, f"scalar code {c} of {n}")
+    for name, arr in _code_forms(probe):
+        m = mapper[arr]
+        o.check_eq([_plain(x) for x in tgt.decode_multiple(m)], probe, cl, f"mapper[{name} array] over an alphabet of {n}")
+    # every code at once
+    allc = np.arange(n)
+    o.check_eq(np.asarray(tgt.decode_multiple(mapper[allc])).tolist(), syms, cl, f"all {n} codes")
+    return o
+
+
 ENUMS = [
     Enum(
         "byte_rejection",
@@ -1767,6 +1808,14 @@ ENUMS = [
         run_code_rejection,
         rule="code -1, len, or 256*m + valid code",
         clauses="boundary codes x 12 alphabets x all integer dtypes: decoded iff 0 <= code < len, else AlphabetError",
+        exhaustive=True,
+    ),
+    Enum(
+        "mapper_wide",
+        cases_mapper_wide,
+        run_mapper_wide,
+        rule="source alphabet of 255..70000 symbols mapped onto a reversed, rotated or extended target",
+        clauses="codes on both sides of the 8 and 16 bit boundaries keep their symbols, scalar and array form, every integer dtype",
         exhaustive=True,
     ),
     Enum(
